@@ -350,6 +350,24 @@ theorem back_lt {log : Log} (h : LogInv log) {t : FTxn} (ht : t ∈ log) {r : DR
     · have := ih hi ht
       simp only [logEnd]; omega
 
+/-- a non-zero back pointer names a record of the same object (in the whole log) -/
+theorem back_valid {log : Log} (h : LogInv log) {t : FTxn} (ht : t ∈ log) {r : DRec} (hr : r ∈ t.recs)
+    {q : Nat} (hb : r.body = .back q) (hq : q ≠ 0) : ∃ th, recAt log q = some th ∧ th.2.oid = r.oid := by
+  induction log with
+  | nil => simp at ht
+  | cons t' older ih =>
+    obtain ⟨_, hrec, _, hi⟩ := h
+    rcases List.mem_cons.1 ht with rfl | ht
+    · have := (hrec r hr).2.2
+      rw [hb] at this
+      simp only at this
+      rcases this with h0 | ⟨th', h1, h2⟩
+      · exact absurd h0 hq
+      · exact ⟨th', by rw [recAt_cons_of_lt (recAt_some h1).1, h1], h2⟩
+    · have hlt := back_lt hi ht hr hb
+      obtain ⟨th, h1, h2⟩ := ih hi ht
+      exact ⟨th, by rw [recAt_cons_of_lt hlt, h1], h2⟩
+
 theorem revRecs_tid_lt {log : Log} (h : LogInv log) {oid : Nat} {th : FTxn × DRec}
     (hm : th ∈ revRecs log oid) : th.1.tid ≤ lastTid log :=
   tid_le_lastTid h (mem_revRecs hm).1
